@@ -94,7 +94,9 @@ char *dbg_memstr(char *mem, int len)
     char *str = xmalloc(strsize + 1);
 
     for (i = j = 0; i < len; i++) {
-        switch (mem[i]) {
+        unsigned char c = mem[i];   /* N.B. char may be signed */
+
+        switch (c) {
         case '\r':
             strcpy(&str[j], "\\r");
             j += 2;
@@ -108,10 +110,10 @@ char *dbg_memstr(char *mem, int len)
             j += 2;
             break;
         default:
-            if (isprint(mem[i]))
-                str[j++] = mem[i];
+            if (isprint(c))
+                str[j++] = c;
             else {
-                sprintf(&str[j], "\\%.3o", mem[i]);
+                sprintf(&str[j], "\\%.3o", c);
                 j += 4;
             }
             break;
